@@ -154,6 +154,9 @@ def _ex(**kw):
 
 
 CORPUS = [
+    # a restricted run sets up only the setup node registered SECOND; it is stored, the later call runs the first one only
+    _chain_case(3, [[0, 2], [1, 2]], [_ex(target=[1]), dict(kind="call", args=[], run_debug=False), dict(kind="call", args=[], run_debug=False)], setup=[0, 1]),
+    _chain_case(4, [[1, 2], [0, 3], [2, 3]], [dict(kind="setup", target=[2], exclude=None, root=None), dict(kind="call", args=[], run_debug=False)], setup=[0, 1, 2], is_async=True),
     # a setup node that has run is reconfigured (priority only): it keeps its stored result
     _chain_case(3, [[0, 1], [1, 2]], [dict(kind="call", args=[], run_debug=False), dict(kind="config", config={"nodes": {"@0": {"priority": 4}}}), dict(kind="call", args=[], run_debug=False),
                                      dict(kind="config", config={"nodes": {"@1": {"priority": 2, "is_sequential": True}}}), dict(kind="setup", target=None, exclude=None, root=None), _ex()], setup=[0, 1]),
